@@ -129,6 +129,9 @@ func runC10(t *simrt.Tape, o Opts) Outcome {
 			// re-protecting a key's pages after it was used can fail (mprotect): the access then reports
 			// an error although its callback produced a result
 			w.Faults.Kinds["release.err"] = t.Choose(2, "release.err") == 1
+			// the application's AEAD panics while it holds the data row key's heap copy: the copy is
+			// wiped although the call unwinds ("decryptRow defers MemClr(rawDrk)")
+			w.Faults.Kinds["aead.panic"] = t.Choose(2, "aead.panic") == 1
 		}
 		checked := 0
 		sources := map[string]bool{}
